@@ -7,7 +7,7 @@ LEVEL = 'exploration'
 MECHANISMS = [('cgsmiles.graph_utils', 'merge_graphs'), ('cgsmiles.graph_utils', 'annotate_fragments'), ('cgsmiles.graph_utils', 'sort_nodes_by_attr'), ('cgsmiles.resolve', 'MoleculeResolver.resolve_disconnected_molecule')]
 REQUIRED_COUNTERS = ['resolve_calls_observed']
 ASSUMPTIONS = ['the per-atom annotations compared on a copy are the template attributes outside a fixed list of bookkeeping keys (vmon/contracts.py INTERNAL_KEYS)', 'bond orders are compared up to aromaticity re-perception', 'for an atom shared by two coarse nodes only the element is compared; ambiguous correspondences (two coarse nodes of the same fragment name sharing atoms) are skipped and counted']
-RULE = "mixed resolver workload: unique-label cut molecules (G-mol x G-cut x G-render, all three constructors), shared-atom cases, virtual nodes / zero-order edges, 2-4-level hierarchies (atomistic and coarse last level), coarse cut graphs (a quarter with bead names like NA+, CL-, C1', N-ter), periodic copolymers (the same ordered name pair on several base edges, optionally one surplus base-edge order), and G-ambig polymer inputs (unlabelled $, homopolymers, surplus descriptors, multiplied units, rings, both matching conventions, atomistic and coarse). After EVERY resolve() call (each level) an icontract post-condition checks: fragid present and a coarse key on every fine node; coarse[k]['graph'] == set of fine nodes recording k; cover; the mapped nodes of k are a bijective copy of the template under k's name (elements/node names, charges, annotations, internal bonds and orders, no extra bonds); every node reports the fragment name. distinct = (kind, feature set, #heavy, #fragments); non-trivial = at least one resolve() call completed."
+RULE = "mixed resolver workload: unique-label cut molecules (G-mol x G-cut x G-render, all three constructors), shared-atom cases, virtual nodes / zero-order edges, 2-4-level hierarchies (atomistic and coarse last level), coarse cut graphs (a quarter with bead names like NA+, CL-, C1-prime, N-ter), periodic copolymers (the same ordered name pair on several base edges, optionally one surplus base-edge order), and G-ambig polymer inputs (unlabelled $, homopolymers, surplus descriptors, multiplied units, rings, both matching conventions, atomistic and coarse). After EVERY resolve() call (each level) an icontract post-condition checks: fragid present and a coarse key on every fine node; coarse[k]['graph'] == set of fine nodes recording k; cover; the mapped nodes of k are a bijective copy of the template under k's name (elements/node names, charges, annotations, internal bonds and orders, no extra bonds); every node reports the fragment name. distinct = (kind, feature set, #heavy, #fragments); non-trivial = at least one resolve() call completed."
 
 
 def setup():
